@@ -972,6 +972,20 @@ def _handle_upload_pack_head(
     if protocol_version != 2:
         proto.write_pkt_line(None)
 
+    deepening = (
+        depth not in (0, None) or shallow_since is not None or bool(shallow_exclude)
+    )
+    new_shallow: set[ObjectID] | None = None
+    new_unshallow: set[ObjectID] | None = None
+    shallow_updates_read = False
+    if deepening and can_read is not None and protocol_version != 2:
+        # The server answers a deepen request with its shallow/unshallow
+        # lines right away, before it looks at any "have". Read them now:
+        # otherwise the negotiation loop below, which polls for ACKs, runs
+        # into them whenever they arrive in time.
+        (new_shallow, new_unshallow) = _read_shallow_updates(proto.read_pkt_seq())
+        shallow_updates_read = True
+
     have = next(graph_walker)
     in_vain = 0
     got_ack = False
@@ -1004,8 +1018,10 @@ def _handle_upload_pack_head(
     if protocol_version == 2:
         proto.write_pkt_line(None)
 
-    if depth not in (0, None) or shallow_since is not None or shallow_exclude:
-        if can_read is not None:
+    if deepening:
+        if shallow_updates_read:
+            pass
+        elif can_read is not None:
             (new_shallow, new_unshallow) = _read_shallow_updates(proto.read_pkt_seq())
         else:
             new_shallow = None
